@@ -30,10 +30,13 @@ def build(ctx, tier, seed):
                 hb = F.hexbuf(b)
                 pairs.append({'legacy': 'L %s %s %x 0 %x' % (a['get'], hb, idx, rng.bits(32)), 'current': ['G %s %s %x' % (f.get_field, hb, idx)],
                               'kind': 'get', 'key': {'format': f.name, 'field': fld['name'], 'accessor': a['get']}})
-            for b in bufs[:3] + bufs[-nr:]:
+            combos = [(b, v & ((1 << vw) - 1)) for b in bufs[:3] + bufs[-nr:] for v in F.values_for(rng, fld['width'], 1)[:6]]
+            # prior field contents related to the value written (same value, same low / high half, one bit off)
+            for v in [rng.bits(min(fld['width'], vw)), rng.bits(min(fld['width'], 32)), (1 << min(fld['width'], vw)) - 1]:
+                combos += [(b, v) for b in F.related_priors(rng, f.hdr + 3, fld['first'], fld['width'], v)]
+            for b, v in combos:
                 hb = F.hexbuf(b)
-                for v in F.values_for(rng, fld['width'], 1)[:6]:
-                    v &= (1 << vw) - 1
+                if True:
                     pairs.append({'legacy': 'L %s %s %x %x x' % (a['set'], hb, idx, v), 'current': ['S %s %s %x %x' % (f.set_field, hb, idx, v)],
                                   'kind': 'set', 'key': {'format': f.name, 'field': fld['name'], 'accessor': a['set']}})
         if a['init']:
